@@ -75,3 +75,28 @@ def byNameEnv {α : Type} (zero : α) (d : ModelDef) (cal : List (Name × α)) (
   ++ (layout d.control).map (fun n => (n, (controlKw.lookup n).getD zero))
 
 end FormakVerif
+
+namespace FormakVerif
+
+/-- consistent renaming of symbols -/
+def Expr.rename (σ : Name → Name) : Expr → Expr
+  | .var n => .var (σ n)
+  | .num q => .num q
+  | .add a b => .add (a.rename σ) (b.rename σ)
+  | .mul a b => .mul (a.rename σ) (b.rename σ)
+  | .neg a => .neg (a.rename σ)
+  | .div a b => .div (a.rename σ) (b.rename σ)
+  | .pow a k => .pow (a.rename σ) k
+  | .app f a => .app f (a.rename σ)
+
+def renameKw {α : Type} (σ : Name → Name) (kw : List (Name × α)) : List (Name × α) :=
+  kw.map fun p => (σ p.1, p.2)
+
+def ModelDef.rename (σ : Name → Name) (d : ModelDef) : ModelDef where
+  dt := σ d.dt
+  state := d.state.map σ
+  control := d.control.map σ
+  calibration := d.calibration.map σ
+  update := d.update.map fun p => (σ p.1, p.2.rename σ)
+
+end FormakVerif
